@@ -162,6 +162,7 @@ macro_rules! owned_entry {
             .rform("reserve_items(&Vec<T>)", f::res_refs::<R, Vec<$t>>)
             .rform("reserve_items(&[T])", f::res_slice::<R, $t>)
             .rform("reserve_items(PushIter<Vec<T>>)", f::res_iter::<R, $t>)
+            .rform_some("reserve_items(&[T; 2])", f::res_array2::<R, $t>, |v| v.len() == 2)
             .cloneable()
             .serde()
             .flags($flags)
@@ -226,6 +227,7 @@ macro_rules! slice_rforms {
         $e.rform("reserve_items(&Vec<X>)", f::res_refs::<$R, Vec<$X>>)
             .rform("reserve_items(&[X])", f::res_slice::<$R, $X>)
             .rform("reserve_items(ReadSlice)", f::res_read_items::<$S>)
+            .rform_some("reserve_items(&[X; 2])", f::res_array2::<$R, $X>, |v| v.len() == 2)
     };
 }
 macro_rules! columns_forms {
@@ -484,7 +486,13 @@ pub fn visit_all<Vz: Visitor>(v: &mut Vz) {
     {
         type S = Str<Dict<Owned<u8>>>;
         type R = <S as Spec>::R;
-        let e = Entry::<S>::new(strings_small()).large(strings());
+        let e = Entry::<S>::new(strings_small()).large({
+            // strings whose first byte is a dictionary tag once a dictionary exists
+            let mut l = strings();
+            l.push("\0x".to_string());
+            l.push("\u{1}b".to_string());
+            l
+        });
         let e = string_forms!(e, R);
         v.visit(e.debug().flags("strings dictionary"));
     }
@@ -884,7 +892,7 @@ pub fn entry_of<S: Spec>() -> Entry<S> {
 use crate::m_stack::StackCaps;
 
 pub trait StackVisitor {
-    fn visit<S: Spec, C: flatcontainer::impls::index::IndexContainer<Idx<S>> + 'static>(&mut self, e: Entry<S>, caps: StackCaps<S, C>);
+    fn visit<S: Spec, C: flatcontainer::impls::index::IndexContainer<Idx<S>> + IdxModel<Idx<S>> + 'static>(&mut self, e: Entry<S>, caps: StackCaps<S, C>);
 }
 
 pub fn visit_stacks<Vz: StackVisitor>(v: &mut Vz) {
